@@ -316,9 +316,12 @@ pub fn run(r: &mut R) {
             cases.append(Case("c%d" % len(cases), mod, meta={"derive": "AsRef+AsMut unsized str newtype, " + desc, "src": "#[derive(AsRef, AsMut)] " + decl}))
     # (the field is spelled `dyn Shape + 'static`: with the bound left implicit the derived signature `-> &dyn Shape` gets the
     # reference's lifetime as object bound and rustc rejects the impl - a limitation outside what the documentation promises)
-    for spelled, desc in (("DynAlias", "own type under an alias"), ("dyn Shape + 'static", "own type literally"), (None, "direct")):
+    for spelled, desc, fty in (("DynAlias", "own type under an alias", "dyn Shape + 'static"), ("dyn Shape + 'static", "own type literally", "dyn Shape + 'static"), (None, "direct", "dyn Shape + 'static"),
+                               # the object lifetime left implicit, as one normally writes a field: it is 'static there, and must stay so in the derived signature
+                               (None, "direct, object lifetime implicit", "dyn Shape"), ("dyn Shape", "own type literally, object lifetime implicit", "dyn Shape"),
+                               ("DynAlias", "own type under an alias, object lifetime implicit in the field", "dyn Shape")):
         a = ("#[as_ref(%s)] #[as_mut(%s)] " % (spelled, spelled)) if spelled else ""
-        decl = "pub struct D(%spub dyn Shape + 'static);" % a
+        decl = "pub struct D(%spub %s);" % (a, fty)
         mod = """use super::*;
 #[derive(derive_more::AsRef, derive_more::AsMut)] #[repr(transparent)] %s
 fn mk<'a>(s: &'a mut (dyn Shape + 'static)) -> &'a mut D { unsafe { &mut *(s as *mut dyn Shape as *mut D) } }
